@@ -4,8 +4,8 @@
 (* formulas, and the scenario emitter used with `tlc -simulate`.             *)
 EXTENDS MainChainVote, Json
 
-VARIABLES rd, hist, nstep
-mcvars == <<alpha, ballots, config, cands, gasC, gasP, cur, ev, rd, hist, nstep>>
+VARIABLES rd, hist, nstep, n0
+mcvars == <<alpha, ballots, config, cands, gasC, gasP, cur, ev, rd, hist, nstep, n0>>
 
 CONSTANTS N, MaxSteps, SimLen
 
@@ -24,6 +24,19 @@ Q_Payees     == {"p1"}
 Q_Amounts    == {1, 3}
 Q_Gaps       == {0, 1, 20, 21}
 Q_SignerSets == {{k} : k \in MC_Keys} \cup {{"x1"}, {}, {"c1"}}
+
+\* ---- small exhaustive configuration for the quick tier ----
+R_Strangers  == {"x1"}
+R_Ids        == {"i1", "i2"}
+R_Cands      == {"c1"}
+R_CfgKeys    == {"ka"}
+R_CfgVals    == {"v1"}
+R_Lists      == {<<"k1">>}
+R_Payees     == {"p1"}
+R_Amounts    == {3}
+R_Gaps       == {0, 1, 20, 21}
+R_Gaps3      == {1, 20, 21}
+R_SignerSets == {{k} : k \in MC_Keys} \cup {{"x1"}, {"c1"}}
 
 T_Strangers  == {"x1", "x2"}
 T_Ids        == {"i1", "i2"}
@@ -49,21 +62,28 @@ S_Amounts    == {0, 1, 2, 5, 40}
 S_Gaps       == {0, 0, 1, 1, 1, 2, 5, 19, 20, 21, 22}
 S_SignerSets == {{k} : k \in MC_Keys} \cup {{"x1"}, {"x2"}, {}, {"c1"}, {"c2"}, {"k1", "x1"}}
 
-MCInit == Init /\ rd = RdInit /\ hist = <<>> /\ nstep = 0
-MCNext == Next /\ rd' = RdNext(rd, ev') /\ hist' = <<>> /\ nstep' = nstep + 1
+MCInit == Init /\ rd = RdInit /\ hist = <<>> /\ nstep = 0 /\ n0 = N
+MCNext == Next /\ rd' = RdNext(rd, ev') /\ hist' = <<>> /\ nstep' = nstep + 1 /\ n0' = n0
 MCSpec == MCInit /\ [][MCNext]_mcvars
 
 \* the code as it is (deviation StrangerVotes on): used by hand to let TLC exhibit the witness
-DevNext == NextOf({"StrangerVotes"}, All, All) /\ rd' = RdNext(rd, ev') /\ hist' = <<>> /\ nstep' = nstep + 1
+DevNext == NextOf({"StrangerVotes"}, All, All) /\ rd' = RdNext(rd, ev') /\ hist' = <<>> /\ nstep' = nstep + 1 /\ n0' = n0
 DevSpec == MCInit /\ [][DevNext]_mcvars
 
 One(X) == IF X = {} THEN {} ELSE {RandomElement(X)}
 \* signer sets are drawn with a bias towards Alphabet keys (so that quorums are reached)
-OneS(X) == IF RandomElement(1..4) = 1 THEN One(X) ELSE {{KeyName(RandomElement(1..N))}}
+OneS(X) == IF RandomElement(1..4) = 1 THEN One(X) ELSE {{KeyName(RandomElement(1..n0))}}
 \* scenarios are generated from the code as it is (strangers' setConfig is not rejected there)
-SimNext == NextOf({"StrangerVotes"}, One, OneS) /\ rd' = RdNext(rd, ev') /\ nstep' = nstep + 1
+SimNext == NextOf({"StrangerVotes"}, One, OneS) /\ rd' = RdNext(rd, ev') /\ nstep' = nstep + 1 /\ n0' = n0
            /\ hist' = Append(hist, [ev' EXCEPT !.ntf = <<>>])
-SimSpec == MCInit /\ [][SimNext]_mcvars
+\* simulation starts from a stored list of any size 1..N (the first n0 keys)
+SimInit == /\ n0 \in 1..N
+           /\ alpha = [i \in 1..n0 |-> KeyName(i)] /\ ballots = <<>>
+           /\ config = [k \in CfgKeys |-> Nil] /\ cands = Cands
+           /\ gasC = InitGas /\ gasP = [p \in Payees |-> 0] /\ cur = 0
+           /\ ev = Inv0("init", {}, Nil, Nil, Nil, <<>>, Nil, Nil, 0, 0)
+           /\ rd = RdInit /\ hist = <<>> /\ nstep = 0
+SimSpec == SimInit /\ [][SimNext]_mcvars
 
 Bounded == nstep <= MaxSteps
 
@@ -72,7 +92,7 @@ Age(h) == IF cur - h > Window THEN Window + 1 ELSE cur - h
 MCView == <<alpha, [i \in 1..Len(ballots) |-> [ballots[i] EXCEPT !.h = Age(@)]], config, cands, gasC, gasP,
             [i \in AllIds |-> IF rd[i].vs = {} THEN RdEmpty ELSE [rd[i] EXCEPT !.last = Age(@)]], nstep>>
 
-EmitScenario == IF Len(hist) = SimLen THEN PrintT("SCEN " \o ToJson([n |-> N, steps |-> hist])) ELSE TRUE
+EmitScenario == IF Len(hist) = SimLen THEN PrintT("SCEN " \o ToJson([n |-> n0, steps |-> hist])) ELSE TRUE
 
 P_C17 == [][/\ C17_FiresIff(rd, ev') /\ C17_StrangerRejected(ev') /\ C17_RejectedInert(ev')
             /\ C17_MemberAccepted(ev') /\ C17_OwnerRemoves(ev')]_mcvars
@@ -85,5 +105,5 @@ Inv_Refines ==
   \A id \in AllIds : ~rd[id].taint =>
      LET i == IdxOf(Live(ballots, cur), id)
      IN  IF rd[id].vs = {} \/ cur - rd[id].last > Window THEN i = 0
-         ELSE i # 0 /\ Range(Live(ballots, cur)[i].voters) = rd[id].vs /\ Live(ballots, cur)[i].h = rd[id].last
+         ELSE i # 0 /\ Ran(Live(ballots, cur)[i].voters) = rd[id].vs /\ Live(ballots, cur)[i].h = rd[id].last
 =============================================================================
